@@ -29,7 +29,7 @@ def impl_ortho(obj, mode):
 def _shard(name, shard, nshards, tier, seed):
     c = Corr(name)
     rng = np.random.default_rng([seed, shard, 1])
-    n = ((600 if name == 'mps.orthonormalize' else 300) if tier == 'quick' else (6000 if name == 'mps.orthonormalize' else 2500)) // nshards + 1
+    n = ((600 if name == 'mps.orthonormalize' else 300) if tier == 'quick' else (30000 if name == "mps.orthonormalize" else 12000)) // nshards + 1
     ops, impls, sigs = [], [], []
     for _ in range(n):
         mode = 'left' if rng.random() < 0.5 else 'right'
